@@ -185,15 +185,23 @@ def run(chk):
         ('seq', ('quant', True, 0, ('lit', [0, 3]), ('var', 0)), ('var', 0)),
         ('for', 1, ('for2', 0, ('lit', [1, 2]), 2, ('lit', [3]), ('add', ('var', 0), ('var', 2))), ('seq', ('var', 0), ('seq', ('var', 1), ('var', 2)))),
     ]
+    # a later variable of the same name must not leak into the (lazily evaluated) range of an earlier one:
+    # for $c in ($a, $a), $a in (-2, -2, 4) return $a  with two items in the caller's $a
+    leak = [('for2', 2, ('seq', ('var', 0), ('var', 0)), 0, ('lit', [-2, -2, 4]), ('var', 0)),
+            ('for2', 2, ('seq', ('var', 0), ('var', 0)), 0, ('lit', [3]), ('seq', ('var', 2), ('var', 0))),
+            ('quant', True, 2, ('seq', ('var', 0), ('var', 0)), ('for', 0, ('lit', [1]), ('var', 2)))]
+    fixed += leak
     progs += fixed
     for _ in range(260 if quick else 6000):
         progs.append(gen(rng, rng.choice([2, 3, 3, 4]), []))
     envs = []
-    for _ in progs:
+    for e in progs:
         env = {}
         for i in range(3):
             if rng.random() < 0.93:
                 env[i] = [rng.randint(5, 9) * 10 + i for _ in range(rng.choice([1, 1, 1, 1, 2, 0]))]
+        if e in leak:
+            env[0] = [70, 80]
         envs.append(env)
     terms = []
     for e, env in zip(progs, envs):
